@@ -83,6 +83,12 @@ def gen(ctx):
             args.append([c, s, st, en, fl])
         cases.append(dict(n=n, args=args))
     ctx.extra['exhaustive_bound_n'] = N
+    # the same small space with start / end indices that are NumPy scalars (unsigned ones wrap on subtraction)
+    for npt in ('uint64', 'uint8', 'int16', 'uint32'):
+        for n in range(1, 4):
+            args = [[c, s, st, en, fl] for c, s, st, en, fl in itertools.product(
+                range(1, n + 2), [None, 1, 2], [None] + list(range(0, n + 1)), [None] + list(range(0, n + 2)), (True, False))]
+            cases.append(dict(n=n, args=args, nptype=npt))
     # longer arrays, sampled
     r = ctx.rng
     for _ in range(6 if ctx.quick else 40):
